@@ -427,6 +427,14 @@ impl Server {
   }
 }
 
+#[cfg(feature = "verif-hooks")]
+impl Server {
+  /// Verification hook: read-only access to the puncturable PRF.
+  pub fn verif_pprf(&self) -> &GGM {
+    &self.pprf
+  }
+}
+
 // The `Client` struct is essentially a collection of static functions
 // for computing client-side operations in the PPOPRF protocol.
 pub struct Client {}
